@@ -183,6 +183,25 @@ fn structural() -> Vec<Vec<String>> {
         "b'ab' + b\"c\"",
         "f'x{a}' + r'\\n'",
         "true && false || null == a",
+        // the minus that belongs to the literal, alone and inside larger expressions
+        "-9223372036854775808",
+        "- 9223372036854775808 + a",
+        "a - -9223372036854775808",
+        "[ -9223372036854775808 , - 1 ]",
+        "( -9223372036854775808 ) * a",
+        "a ? -9223372036854775808 : - b",
+        "- - 5 + - a",
+        // matches without cases, without arms worth mentioning, and nested
+        "match a { }",
+        "( match a { } )",
+        "a ? b : match c { }",
+        "[ match a { } , b ]",
+        "match a { case _ : match b { } }",
+        "match a { case 1 : b , }",
+        "f ( match a { } ) + c",
+        // raw and byte strings next to other operands
+        "r'é' + a",
+        "a + r\"x\" + b'\\x41'",
     ];
     raw.iter().map(|s| s.split(' ').map(|x| x.to_string()).collect()).collect()
 }
@@ -566,7 +585,7 @@ pub fn run(t: Tier) -> i32 {
     let mut rep = Report::new(ID, t, "exploration");
     let sp = Space::new(t);
     rep.rule = format!(
-        "spans: {} token sequences (every flat operator sequence with <= {} operators over 16 symbols, plain and with each of 29 prefix/postfix decorations on one operand, operands partly replaced by string literals with 2- and 4-byte characters; plus 30 structural sources: lists, maps, calls, chains, nested ?:, match arms, macros, literals of every kind) x 6 whitespace policies (none, blank, two blanks, newline, tab, mixed) x 4 paddings (none, blanks, newlines around, trailing newline): every expression node (all grammar levels, call/index/list/map children, match scrutinee and arms; not match patterns) must have a span inside the source, inside its parent, disjoint from its siblings, the root must span the trimmed source, and the spanned text compiled on its own must give the same canonical subtree; every token span must be increasing, non-overlapping and re-lex to the same single token. error-locations: every single-token deletion, duplication, replacement by each of 12 tokens and every truncation of those sequences in 3 layouts: a reported syntax-error location must have line < number of lines and column <= the length of that line. character-edits: 22 sources whose tokens have an inner structure (hex, unicode and octal escapes in strings and bytes, raw and triple-quoted strings, f-string holes, hex/exponent/suffixed numbers) under every deletion, truncation, insertion and replacement of one character by each of 14 characters (line break, blank, quotes, backslash, x, u, g, 4, braces, ...) and every pair (line break at any place, insertion at any place): same oracle, and no panic. Non-trivial = every compiled source / every rejected edit",
+        "spans: {} token sequences (every flat operator sequence with <= {} operators over 16 symbols, plain and with each of 29 prefix/postfix decorations on one operand, operands partly replaced by string literals with 2- and 4-byte characters; plus 47 structural sources: lists, maps, calls, chains, nested ?:, match arms, macros, literals of every kind) x 6 whitespace policies (none, blank, two blanks, newline, tab, mixed) x 4 paddings (none, blanks, newlines around, trailing newline): every expression node (all grammar levels, call/index/list/map children, match scrutinee and arms; not match patterns) must have a span inside the source, inside its parent, disjoint from its siblings, the root must span the trimmed source, and the spanned text compiled on its own must give the same canonical subtree; every token span must be increasing, non-overlapping and re-lex to the same single token. error-locations: every single-token deletion, duplication, replacement by each of 12 tokens and every truncation of those sequences in 3 layouts: a reported syntax-error location must have line < number of lines and column <= the length of that line. character-edits: 22 sources whose tokens have an inner structure (hex, unicode and octal escapes in strings and bytes, raw and triple-quoted strings, f-string holes, hex/exponent/suffixed numbers) under every deletion, truncation, insertion and replacement of one character by each of 14 characters (line break, blank, quotes, backslash, x, u, g, 4, braces, ...) and every pair (line break at any place, insertion at any place): same oracle, and no panic. Non-trivial = every compiled source / every rejected edit",
         sp.n_sources(),
         t.pick(1, 2)
     );
